@@ -73,6 +73,11 @@ fn calc_max_day_cost_per_sec(all_deltas: &Vec<TxDelta>) -> MaxDayCosts {
     let mut day_zero_sec_costs =
         HashMap::<Security, (Date, GreaterEqualZeroDecimal)>::new();
 
+    // The closing (last post-status) cost of each security on each day that has
+    // a delta for it. This, not the day's maximum, carries forward to later days.
+    let mut closing_costs_by_day =
+        HashMap::<Date, HashMap<Security, GreaterEqualZeroDecimal>>::new();
+
     // For each MomentaryCosts::sec_cost, we need to include every security
     let mut security_set = HashSet::<Security>::new();
 
@@ -110,6 +115,13 @@ fn calc_max_day_cost_per_sec(all_deltas: &Vec<TxDelta>) -> MaxDayCosts {
             max_costs_by_day.get_mut(&date_from_delta).unwrap();
         day_max_costs.observe_new_cost(sec, total_acb);
 
+        if !closing_costs_by_day.contains_key(&date_from_delta) {
+            closing_costs_by_day.insert(date_from_delta, HashMap::new());
+        }
+        let day_closing_costs: &mut HashMap<Security, GreaterEqualZeroDecimal> =
+            closing_costs_by_day.get_mut(&date_from_delta).unwrap();
+        day_closing_costs.insert(sec.clone(), total_acb);
+
         if !day_zero_sec_costs.contains_key(sec) {
             day_zero_sec_costs.insert(
                 sec.clone(),
@@ -128,9 +140,9 @@ fn calc_max_day_cost_per_sec(all_deltas: &Vec<TxDelta>) -> MaxDayCosts {
     let mut last_acbs = HashMap::<Security, GreaterEqualZeroDecimal>::new();
     for day in sorted_days {
         let max_costs = max_costs_by_day.get_mut(&day).unwrap();
+        let day_closing_costs = closing_costs_by_day.get(&day).unwrap();
         for sec in &security_set {
-            let last_acb = *max_costs
-                .sec_max_cost_for_day
+            let last_acb = *day_closing_costs
                 .get(sec)
                 .or_else(|| last_acbs.get(sec))
                 .unwrap_or_else(|| &day_zero_sec_costs.get(sec).unwrap().1);
